@@ -357,28 +357,36 @@ def nodeMatches (r : Registry) (id : Nat) (node : Name) : Bool :=
 def tombstonePM (r : Registry) (pm : PMap) (node : Name) (now : Int) : PMap :=
   pm.map (fun e => if nodeMatches r e.1 node then (e.1, ⟨true, now⟩) else e)
 
-/-- Wildcard path of `FindProducers("topic", "*", "")`: one (arbitrary — here: first in list
-order; in Go: map order) registration per peer id. NOT deterministic in the implementation;
-outside the modelled input domain (see `Op.modelled`). -/
-def wildcardTargets : DB → List Nat → List (Key × Nat)
-  | [], _ => []
-  | e :: m, seen =>
-    if e.1.cat = .topic && e.1.sub = [] then
-      ((e.2.map (·.1)).filter (fun id => !seen.contains id)).map (fun id => (e.1, id))
-        ++ wildcardTargets m (seen ++ e.2.map (·.1))
-    else wildcardTargets m seen
+/-! ### The wild-card path `FindProducers("topic", "*", "")`
 
-def tombstoneOne (r : Registry) (db : DB) (k : Key) (id : Nat) (node : Name) (now : Int) : DB :=
-  match mget db k with
-  | none => db
-  | some pm =>
-    if nodeMatches r id node then
-      mset db k (pm.map (fun e => if e.1 = id then (e.1, ⟨true, now⟩) else e))
-    else db
+It walks `registrationMap` in Go map order and keeps, for every peer id, the `*Producer` of the
+FIRST topic registration in which it meets that id. Which topic that is, is a run-time choice
+`pick : peer id → topic`, constrained only by `PickValid` (see `Nsq.Model.RegistryStar`): the
+result of `POST /topic/tombstone?topic=*` is a SET, one element per valid pick. -/
+
+/-- the resolved run-time choice of `FindProducers("topic","*","")` -/
+abbrev Pick := Nat → Name
+
+/-- topics peer `id` is registered for (the `Topics` list of `/nodes`) -/
+def topicsOf (db : DB) (id : Nat) : List Name :=
+  ((lookupRegistrations db id).filter (fun k => isMatch k .topic star [])).map (·.key)
+
+/-- the pick of an iteration in list order (ONE of the possible outcomes) -/
+def firstPick (db : DB) : Pick := fun id => (topicsOf db id).headD []
+
+/-- `p.Tombstone()` on the picked producer `id` (stored under topic `key`) if its node string matches -/
+def starTombVal (r : Registry) (pick : Pick) (node : Name) (now : Int) (key : Name) (id : Nat) (tb : Tomb) : Tomb :=
+  if pick id = key && nodeMatches r id node then ⟨true, now⟩ else tb
+
+def starTombPM (r : Registry) (pick : Pick) (node : Name) (now : Int) (k : Key) (pm : PMap) : PMap :=
+  if isMatch k .topic star [] then pm.map (fun pe => (pe.1, starTombVal r pick node now k.key pe.1 pe.2)) else pm
+
+/-- `POST /topic/tombstone?topic=*`: every picked producer whose node string matches is tombstoned -/
+def tombstoneStarDB (r : Registry) (pick : Pick) (node : Name) (now : Int) : DB :=
+  r.db.map (fun e => (e.1, starTombPM r pick node now e.1 e.2))
 
 def tombstoneDB (r : Registry) (t node : Name) (now : Int) : DB :=
-  if t = star then
-    (wildcardTargets r.db []).foldl (fun d kid => tombstoneOne r d kid.1 kid.2 node now) r.db
+  if t = star then tombstoneStarDB r (firstPick r.db) node now
   else
     match mget r.db (topicKey t) with
     | none => r.db
@@ -488,6 +496,44 @@ def regStep2 (db : DB) (t : Name) (p : Nat) : DB := addProducer db (topicKey t) 
 def delTopicStep1 (db : DB) (t : Name) : DB := removeRegistrations db (findRegistrations db .channel t star)
 def delTopicStep2 (db : DB) (t : Name) : DB := removeRegistrations db (findRegistrations db .topic t [])
 
+/-- `/channel/create`: `AddRegistration(channel key)`, then `AddRegistration(topic key)` -/
+def createChanStep1 (db : DB) (t c : Name) : DB := addRegistration db (chanKey t c)
+def createChanStep2 (db : DB) (t : Name) : DB := addRegistration db (topicKey t)
+def createChannelDB (db : DB) (t c : Name) : DB := addRegistration (addRegistration db (chanKey t c)) (topicKey t)
+
+/-! ### Handlers as lists of critical sections; schedules
+
+`atomic = false`: the sections of the tree as it is (each `RegistrationDB` method call is one);
+`atomic = true`: the sections with the proposed fix F18 (`RegisterProducer`, `RemoveTopic`,
+`AddTopicChannel`: one critical section per handler). `interleave` enumerates every schedule of
+two handlers running concurrently (each keeps its own order). -/
+
+abbrev Section := DB → DB
+
+def registerSecs (atomic : Bool) (p : Nat) (t c : Name) : List Section :=
+  if atomic then [fun db => registerDB db p ⟨t, c⟩]
+  else [fun db => regStep1 db t c p, fun db => regStep2 db t p]
+
+def deleteTopicSecs (atomic : Bool) (t : Name) : List Section :=
+  if atomic then [fun db => deleteTopicDB db t]
+  else [fun db => delTopicStep1 db t, fun db => delTopicStep2 db t]
+
+def createChannelSecs (atomic : Bool) (t c : Name) : List Section :=
+  if atomic then [fun db => createChannelDB db t c]
+  else [fun db => createChanStep1 db t c, fun db => createChanStep2 db t]
+
+def runSecs (db : DB) (l : List Section) : DB := l.foldl (fun d s => s d) db
+
+/-- all interleavings of two sequences (fuel = total length) -/
+def interleaveF {α : Type} : Nat → List α → List α → List (List α)
+  | 0, _, _ => [[]]
+  | _ + 1, [], ys => [ys]
+  | _ + 1, xs, [] => [xs]
+  | n + 1, x :: xs, y :: ys =>
+    (interleaveF n xs (y :: ys)).map (x :: ·) ++ (interleaveF n (x :: xs) ys).map (y :: ·)
+
+def interleave {α : Type} (xs ys : List α) : List (List α) := interleaveF (xs.length + ys.length) xs ys
+
 /-! ## One step of a history -/
 
 inductive Op
@@ -526,7 +572,9 @@ def run (r : Registry) : List Op → Registry
   | op :: ops => run (step r op).1 ops
 
 /-- The only operation whose effect depends on Go's map iteration order:
-`POST /topic/tombstone?topic=*`. Everything else is deterministic and covered. -/
+`POST /topic/tombstone?topic=*`. `step` resolves it in list order (one allowed outcome);
+`StepSet` / `RunSet` (`Nsq.Model.RegistryStar`) give the whole set of allowed outcomes, so the
+theorems of `Nsq.Props.C14Star` need no `modelled` hypothesis. -/
 def Op.modelled : Op → Bool
   | .tombstone a _ => a.topic ≠ some star
   | _ => true
